@@ -12,7 +12,7 @@ from vf import pool_checks
 PROP = "C04"
 LEVEL = "fault_enumeration"
 RULE = ("base cases: C03-style call histories (1-4 calls, FunctorPool and FactoryFunctorPool with quota 1-5), "
-        "until_all_ready() before the first call and between calls; slow begin() in every second worker and slow end() in workers that processed items (so that an early until_all_ready or an unjoined replaced worker is observable); fault positions enumerated over the base index: "
+        "until_all_ready() before the first call, between calls and polled from a side thread while calls run and workers are being replaced; slow begin() in every second worker and slow end() in workers that processed items (so that an early until_all_ready or an unjoined replaced worker is observable); fault positions enumerated over the base index: "
         "none / begin() of worker k raising (k = 0..workers-1 and a replacement worker) / functor raising at the "
         "first, a middle and the last item of a call. Fault-free cases also get the full delay sweep (one 120 ms delay "
         "per executed statement and occurrence, random combinations). Oracle over the log: per worker exactly one "
@@ -23,7 +23,7 @@ ASSUMPTIONS = [
     "a raising functor leaves the consumer waiting for a chunk that cannot come (outside this property): fault runs "
     "drive the generator in a side thread, wait for quiescence and assert only lifecycle facts",
     "what until_all_ready() does when a begin() raised is not stated and not asserted",
-    "pid reuse within one run (< 2 s) is assumed not to happen",
+    "a process counts as a worker left running only if its session id and parent pid are those of the case (pid numbers are recycled quickly under this load)",
 ]
 NBASES = {"quick": 20, "thorough": 200}
 SHARD_TIMEOUT = {"quick": 400, "thorough": 3000}
@@ -35,11 +35,15 @@ RANDOM_K = {"quick": 6, "thorough": 100}
 def gen_base(rng, tier, index):
     from vf.checks import c03
     case = c03.gen_base(rng, tier, index)
+    case.pop("join_timeout", None)       # the property speaks about pools without join_timeout
+    case.pop("no_sweep", None)
     case["calls"] = case["calls"][:rng.randint(1, 3)]
     case["end_delay"] = rng.choice([0, 0.05, 0.15, 0.3])       # slow end(): an unjoined (replaced) worker is still in it
     case["begin_delay"] = rng.choice([0, 0, 0.05, 0.2])        # slow begin() in every second worker
     fault_kind = index % 5      # 0,1: none   2: begin   3: functor   4: none + ready between calls
     case["ready_first"] = fault_kind in (0, 4) or (fault_kind == 1 and rng.random() < 0.5)
+    if fault_kind in (0, 1, 4):
+        case["ready_during"] = True
     if fault_kind == 4:
         for c in case["calls"]:
             c["ready_after"] = True
@@ -86,7 +90,7 @@ def observe(case, result, res):
     ev = result.get("events", [])
     res.count("begin_events", sum(1 for e in ev if e["ev"] == "begin_enter"))
     res.count("end_events", sum(1 for e in ev if e["ev"] == "end_enter"))
-    res.count("until_all_ready_returns", sum(1 for e in ev if e["ev"] == "until_all_ready_return"))
+    res.count("until_all_ready_returns", sum(1 for e in ev if e["ev"] in ("until_all_ready_return", "ready_during_return")))
 
 
 def plan(tier, seed):
